@@ -98,6 +98,15 @@ def gen_abstract(rng, opts):
     max_groups, above (allow reference temperature above/at end of table).
     """
     tref_choice = rng.choice([None, None, 298.15, 298.0, 300.0, 273.15])
+    # stratum: temperatures with more than six significant digits (what the
+    # writer rounds), also exactly at range bounds
+    fine = opts.get('fine_T', True) and rng.random() < 0.15
+    grid = list(T_GRID)
+    if fine:
+        off = rng.choice([0.5678, 0.123456, 0.0004])
+        grid = [t + off if t != 298.15 else t for t in T_GRID]
+        if tref_choice not in (None, 298.15):
+            tref_choice = tref_choice + off
     tref = 298.15 if tref_choice is None else tref_choice
     ngroups = rng.randrange(2, opts.get('max_groups', 6) + 1)
     keys = []
@@ -137,6 +146,8 @@ def gen_abstract(rng, opts):
         depth[name] = depth[parent] + 1
         files[parent]['include'].append(name)
     strata = set()
+    if fine:
+        strata.add('fine_temperatures')
     for kd in keys:
         placement = rng.choice(['inside', 'inside', 'below', 'at_low_end',
                                 'at_high_end', 'above', 'none'])
@@ -144,8 +155,8 @@ def gen_abstract(rng, opts):
                                                          'at_high_end'):
             placement = 'inside'
         npts = 0 if placement == 'none' else rng.randrange(1, 9)
-        lo_grid = [t for t in T_GRID if t < tref]
-        hi_grid = [t for t in T_GRID if t > tref]
+        lo_grid = [t for t in grid if t < tref]
+        hi_grid = [t for t in grid if t > tref]
         if placement == 'below':          # T_ref below the whole table
             pool = hi_grid
         elif placement == 'above':        # T_ref above the whole table
